@@ -91,6 +91,11 @@ let run_case (line : string) : string =
         hex_of_bytes d ^ "@" ^ string_of_table t ^ "@" ^
         (match decode d with Ok m -> string_of_msg m | Err -> "ERR" | Panic -> "PANIC" | OutOfFuel -> "HANG")) l))
       (to_packets_tables (parse_outgoing rest))
+  | [ "txt_esc"; l; ty ] ->
+    let lb = bytes_of_hex l and tyb = bytes_of_hex ty in
+    let e = escape_label lb in
+    let labels = name_labels (e @ (n_of_int 46 :: tyb)) in
+    "OK " ^ hex_of_bytes e ^ " " ^ (if labels = [] then "-" else String.concat "," (List.map hex_of_bytes labels))
   | [ "txt_new"; ps ] ->
     res_to_string
       (fun (stored, b) -> string_of_props stored ^ " " ^ hex_of_bytes b)
@@ -205,6 +210,16 @@ let expected_decode (p : n list) : string option =
 
 let mon_c02 (case : string list) (result : string) : string =
   match case with
+  | [ "txt_esc"; l; ty ] ->
+    (* C02_instance_escape_roundtrip: the labels are the instance label followed by the type's *)
+    let lb = bytes_of_hex l and tyb = bytes_of_hex ty in
+    if lb = [] then "PASS outside-quantifier" else
+    let expect = lb :: name_labels tyb in
+    (match String.split_on_char ' ' result with
+     | [ "OK"; _; labs ] ->
+       let got = if labs = "-" then [] else List.map bytes_of_hex (String.split_on_char ',' labs) in
+       if got = expect then "PASS" else "FAIL instance label does not survive escaping + label split"
+     | _ -> "FAIL escaping: " ^ result)
   | ("enc" | "encdec") :: rest ->
     let m = parse_outgoing rest in
     if not (wf_out m) then "PASS outside-quantifier"
